@@ -276,6 +276,9 @@ func pump(env *sysx.Env, done chan struct{}) bool {
 }
 
 func runCase(c Case) (f *fail) {
+	if c.Mode == "gated" {
+		return runInflight(c)
+	}
 	defer func() {
 		if r := recover(); r != nil {
 			f = &fail{c.Scenario + "/harness-panic", fmt.Sprint(r)}
@@ -460,7 +463,7 @@ func main() {
 		})
 	}
 	run := evid.New("C13", "model_checking")
-	run.Rule("whole system: case = (scenario in {play-tcp, play-udp, record-tcp, record-udp, two-readers-tcp, stalled-reader-tcp}, step index k = 0..len(steps), closer in {Server.Close, ServerStream.Close, Client.Close}, order in {after step k-1 completed, concurrently with step k}); all combinations; cores: every interleaving (preemption bound <=2 quick / <=3 thorough) of the lifecycle drivers of rtpsender.Sender, rtpreceiver.Receiver and the async processor under the controlled scheduler. states = distinct (scenario, k, closer, order) situations + distinct core histories; transitions = protocol steps and scheduling points executed; every trace runs on the implementation. non-trivial = k >= 1")
+	run.Rule("whole system: case = (scenario in {play-tcp, play-udp, record-tcp, record-udp, two-readers-tcp, stalled-reader-tcp}, step index k = 0..len(steps), closer in {Server.Close, ServerStream.Close, Client.Close}, order in {after step k-1 completed, concurrently with step k}); all combinations; plus handler-gated in-flight cases {record, play} x {udp, tcp} x closer {TEARDOWN, Server.Close, connection drop + timeout | Client.Close, Server.Close, ServerStream.Close}: the harness holds a packet callback open, starts the closer, lets the library run to quiescence, releases the callback; cores: every interleaving (preemption bound <=2 quick / <=3 thorough) of the lifecycle drivers of rtpsender.Sender, rtpreceiver.Receiver and the async processor under the controlled scheduler. states = distinct (scenario, k, closer, order) situations + distinct core histories; transitions = protocol steps and scheduling points executed; every trace runs on the implementation. non-trivial = k >= 1")
 	run.Assume("wall-clock is only the hang detector; virtual time is advanced by up to 150 s at quiescence while a call is pending")
 	run.Assume("the whole-system part runs free (Go scheduler decides the interleaving of the racing order); exhaustive interleaving exploration is limited to the component cores")
 
@@ -480,6 +483,7 @@ func main() {
 			}
 		}
 	}
+	cases = append(cases, inflightCases()...)
 	if run.Replay != "" {
 		var d struct {
 			Case Case `json:"case"`
